@@ -1,6 +1,40 @@
 import Bluge.Numeric
-/-! Model driver for C10 (line protocol, see go/harness/hlib). -/
+import BlugeGen.C10
+/-! Model driver for C10 (line protocol, see go/harness/hlib).
+Every answer is computed TWICE: by the definitions translated from /repo's source (`BlugeGen.C10`,
+this is what is compared with the implementation — it validates the translator) and by the readable
+reference model `Bluge.Numeric` (the theorems of BlugeProofs.C10 bridge the two for all inputs; a
+disagreement on a concrete input shows up here as `GEN≠REF`). -/
 open Bluge Bluge.Numeric
+open Bluge.Go (Res)
+
+namespace G
+open BlugeGen.C10
+def resBytes : Res (List (BitVec 8)) → String
+  | .ok bs => bytesToHex bs
+  | .err => "err"
+  | .crash => "panic"
+def enc (v : BitVec 64) (s : Nat) : String := resBytes (NewPrefixCodedInt64 v (BitVec.ofNat 64 s))
+def dec (bs : List (BitVec 8)) : String :=
+  match PrefixCoded_Int64 bs, PrefixCoded_Shift bs with
+  | .ok v, .ok s => hex64 v ++ " " ++ toString s.toNat
+  | .crash, _ => "panic"
+  | _, .crash => "panic"
+  | _, _ => "err"
+def valid (bs : List (BitVec 8)) : String :=
+  match ValidPrefixCodedTermBytes bs with
+  | .ok (b, s) => toString b ++ " " ++ toString s.toInt
+  | .err => "err"
+  | .crash => "panic"
+def split (lo hi : BitVec 64) : String :=
+  match splitInt64Range lo hi 4#64 with
+  | .ok rs => if rs.isEmpty then "-" else ",".intercalate (rs.map fun r => bytesToHex r.startTerm ++ ":" ++ bytesToHex r.endTerm)
+  | .err => "err"
+  | .crash => "panic"
+end G
+
+/-- both computations must agree; the translated one is what is compared with the implementation -/
+def both (gen ref : String) : String := if gen == ref then gen else s!"GEN≠REF gen={gen} ref={ref}"
 
 def showRanges (rs : List TermRange) : String :=
   if rs.isEmpty then "-" else ",".intercalate (rs.map fun r => bytesToHex r.startTerm ++ ":" ++ bytesToHex r.endTerm)
@@ -12,24 +46,24 @@ def c10step (_ : Unit) (op : String) (impl : String) : Unit × String :=
   let ws := op.splitOn " "
   let out : String × String := match ws with
     | ["f2i", x] => match parse64 x with
-        | some f => (hex64 (f2i f), "ok")
+        | some f => (both (hex64 (BlugeGen.C10.Float64ToInt64 f)) (hex64 (f2i f)), "ok")
         | none => ("bad-op", "na")
     | ["i2f", x] => match parse64 x with
-        | some f => (hex64 (i2f f), "ok")
+        | some f => (both (hex64 (BlugeGen.C10.Int64ToFloat64 f)) (hex64 (i2f f)), "ok")
         | none => ("bad-op", "na")
     | ["enc", x, s] => match parse64 x, s.toNat? with
-        | some v, some sh => ((match encode? v sh with | some bs => bytesToHex bs | none => "err"), "ok")
+        | some v, some sh => (both (G.enc v sh) (match encode? v sh with | some bs => bytesToHex bs | none => "err"), "ok")
         | _, _ => ("bad-op", "na")
     | ["dec", x] => match hexToBytes x with
-        | some bs => ((match decode bs, shiftOf bs with
+        | some bs => (both (G.dec bs) (match decode bs, shiftOf bs with
               | some v, some s => hex64 v ++ " " ++ toString s
               | _, _ => "err"), "ok")
         | none => ("bad-op", "na")
     | ["valid", x] => match hexToBytes x with
-        | some bs => let r := validTerm bs; (toString r.1 ++ " " ++ toString r.2, "ok")
+        | some bs => let r := validTerm bs; (both (G.valid bs) (toString r.1 ++ " " ++ toString r.2), "ok")
         | none => ("bad-op", "na")
     | ["split", lo, hi] => match parse64 lo, parse64 hi with
-        | some l, some h => (showRanges (split l h 4), "ok")
+        | some l, some h => (both (G.split l h) (showRanges (split l h 4)), "ok")
         | _, _ => ("bad-op", "na")
     | ["cmp", a, b, s] => match parse64 a, parse64 b, s.toNat? with
         | some x, some y, some sh =>
@@ -53,10 +87,10 @@ def c10step (_ : Unit) (op : String) (impl : String) : Unit × String :=
                 else if impl == toString want then "ok" else s!"bad:range-exactness expected {want}")
         | _, _, _ => ("bad-op", "na")
     | ["il", a, b] => match parse64 a, parse64 b with
-        | some x, some y => (hex64 (interleave x y), "ok")
+        | some x, some y => (both (hex64 (BlugeGen.C10.Interleave x y)) (hex64 (interleave x y)), "ok")
         | _, _ => ("bad-op", "na")
     | ["dil", a] => match parse64 a with
-        | some x => (hex64 (deinterleave x), "ok")
+        | some x => (both (hex64 (BlugeGen.C10.Deinterleave x)) (hex64 (deinterleave x)), "ok")
         | _ => ("bad-op", "na")
     | "case" :: _ => ("case", "na")
     | _ => ("bad-op", "na")
